@@ -381,6 +381,10 @@ def same_up_to_dedent(g, m, dmax, hits):
     return all(same_up_to_dedent(a, b, dmax, hits) for a, b in zip(g, m))
 
 
+# a line made of spaces and lone carriage returns only (the trimmable, non-blank line of known finding F30)
+F30_SOURCE_RE = r"\n +\r[\r ]*\r?(\n|$)"
+
+
 def f30_shape(src_bytes, g, m):
     """True iff the source has a run of lines `spaces CR (CR|space)*` that (1) ends its pattern (end of input, or
     followed by a line that is not a continuation line), (2) contains a line indented less than every other continuation
@@ -390,7 +394,30 @@ def f30_shape(src_bytes, g, m):
         src = src_bytes.decode("utf-8")
     except UnicodeDecodeError:
         return False
-    lines = [l for l in logical_lines(src) if l.strip(" ") != ""]
+    # placeable depth at the start of every line (a placeable may span lines; its inner lines are not lines of the pattern)
+    all_lines = logical_lines(src)
+    depth_at, d, in_str = [], 0, False
+    for ln in all_lines:
+        depth_at.append(d)
+        i = 0
+        while i < len(ln):
+            ch = ln[i]
+            if in_str:
+                if ch == "\\":
+                    i += 1
+                elif ch == '"':
+                    in_str = False
+            elif ch == '"' and d > 0:
+                in_str = True
+            elif ch == "{":
+                d += 1
+            elif ch == "}":
+                d = max(0, d - 1)
+            i += 1
+        in_str = False                     # a string literal does not span lines
+    keep = [k for k, l in enumerate(all_lines) if l.strip(" ") != ""]
+    lines = [all_lines[k] for k in keep]
+    depth = [depth_at[k] for k in keep]
     headers = ("[", "*", ".")
     best = 0
     cr_only = [re.fullmatch(r"( +)\r[\r ]*", ln) for ln in lines]
@@ -412,8 +439,11 @@ def f30_shape(src_bytes, g, m):
         # (2) the other continuation lines of that pattern are indented more than some line of the run
         k = min(len(cr_only[t].group(1)) for t in range(a, b + 1))
         kept = []
-        for l in reversed(lines[:a]):
-            if not l.startswith(" ") or l.lstrip(" ").startswith(headers):
+        for t in range(a - 1, -1, -1):
+            l = lines[t]
+            if depth[t] > depth[a]:
+                continue                   # inside a placeable of an earlier line of this pattern
+            if depth[t] < depth[a] or not l.startswith(" ") or l.lstrip(" ").startswith(headers):
                 break
             kept.append(len(l) - len(l.lstrip(" ")))
         if kept and k < min(kept):
@@ -671,8 +701,9 @@ class C02(Base):
         srcs, _, _ = split_case(case)
         if sig.get("why") and sig["why"] not in (why or ""):
             return False
+        src_re = sig.get("source", "$^")
         try:
-            if not all(re.search(sig.get("source", "$^"), unhx(s).decode("utf-8", "replace"), re.S) for s in srcs):
+            if not all(re.search(src_re, unhx(s).decode("utf-8", "replace"), re.S) for s in srcs):
                 return False
         except re.error:
             return False
